@@ -329,6 +329,39 @@ Theorem C06G_proposal_on_network_unfold : forall P pay s V n,
 Proof. exact (fun P pay s V n => iff_refl _). Qed.
 Print Assumptions C06G_proposal_on_network_unfold.
 
+(* the same for a forced re-proposal: the one proposal for view V signed by its leader carries
+   no payload and its (verifying) justification forces the re-proposal of block n with payload
+   hash h (a timeout certificate whose reporters of a vote for that block weigh a sub-quorum).
+   If some honest node still has that payload cached, and the block-fetch oracle answers at the
+   second round's synchronisation point (H-FETCH, only there), then within two synchronous
+   rounds every honest node has stored block n and is in view V + 1: the honest nodes vote
+   without the payload, the certificate forms, the nodes that have the payload store the block,
+   the others fetch it.  The hypothesis on the cached payload is stated openly: that it follows
+   from the sub-quorum of reporters in reachable states is not proved here. *)
+Theorem C06G_view_recommits : forall P pay fetch, params_ok P -> env_ok P pay -> forall s V n h,
+  preach P s -> headroom P s 4 -> 0 < V -> waiting P s V n -> reproposal_on_network P s V n h ->
+  (exists k0, honestb P k0 = true /\ cache_has (r_cache (n_live (g_node s k0))) n h = true) ->
+  fetch_ok_at P fetch (sync_point P pay (sync_round P pay fetch s)) ->
+  forall k, honestb P k = true ->
+    up (sync_rounds P pay fetch 2 s) k /\ hview (sync_rounds P pay fetch 2 s) k = V + 1 /\
+    height s k < height (sync_rounds P pay fetch 2 s) k.
+Proof. exact view_recommits_holds. Qed.
+Print Assumptions C06G_view_recommits.
+
+Theorem C06G_reproposal_on_network_unfold : forall P s V n h,
+  reproposal_on_network P s V n h <->
+  (exists j mv,
+    justification_view (E := unit) true j = Ok mv /\ vnum mv = V /\
+    justification_verify (p_g P) (p_e P) (p_C P) j = Ok tt /\
+    get_implied_block (E := unit) true (p_C P) (p_first P) j = Ok (n, Some h) /\
+    In {| m_key := cleader (pcfg P 0) V; m_sig_ok := true; m_msg := MProposal None j |} (g_soup s) /\
+    (forall m p' j' mv', In m (g_soup s) -> m_msg m = MProposal p' j' -> m_key m = cleader (pcfg P 0) V ->
+       m_sig_ok m = true -> justification_view (E := unit) true j' = Ok mv' -> vnum mv' = V ->
+       justification_verify (p_g P) (p_e P) (p_C P) j' = Ok tt ->
+       p' = None /\ j' = j)).
+Proof. exact (fun P s V n h => iff_refl _). Qed.
+Print Assumptions C06G_reproposal_on_network_unfold.
+
 (* consecutive views with honest leaders, from such a view: the honest nodes stay in lockstep
    and store one block every two rounds (r blocks in 2r rounds).  After a committed view the
    next leader's proposal is on the network by itself (the leader is notified when it forms the
@@ -604,6 +637,19 @@ Example C06G_example_view_commits_state :
   ex_s1 = sync_rounds ex_P ex_pay (find_cert ex_P) 1 (ginit ex_P).
 Proof. exact ex_s1_unfold. Qed.
 Print Assumptions C06G_example_view_commits_state.
+
+(* the hypotheses of C06G_view_recommits hold in a reachable state of a six-validator network
+   (validator 2 Byzantine): view 2's leader proposes block 0, three honest validators vote, all
+   time out; view 3's leader is forced to re-propose block 0 without payload; validators 1, 3, 4
+   have the payload, validators 5 and 6 do not and must fetch the block *)
+Example C06G_example_view_recommits : exists s,
+  preach ex_P6 s /\ headroom ex_P6 s 4 /\ waiting ex_P6 s 3 0 /\
+  reproposal_on_network ex_P6 s 3 0 100 /\
+  (exists k0, honestb ex_P6 k0 = true /\ cache_has (r_cache (n_live (g_node s k0))) 0 100 = true) /\
+  (exists k1, honestb ex_P6 k1 = true /\ cache_has (r_cache (n_live (g_node s k1))) 0 100 = false) /\
+  fetch_ok_at ex_P6 (find_cert ex_P6) (sync_point ex_P6 ex_pay (sync_round ex_P6 ex_pay (find_cert ex_P6) s)).
+Proof. exact ex_recommit_hyps. Qed.
+Print Assumptions C06G_example_view_recommits.
 
 Example C06G_example_honest_leaders :
   headroom ex_P ex_s1 (Z.of_nat 2 + 2) /\
